@@ -68,6 +68,9 @@ class Runaway(Exception):
     pass
 
 
+_PROFILES = {}
+
+
 def run_real(kinds, inp, shared=False, off=()):
     """returns dict(out=[ids], log=[(stage label,id)], emis={stage:[ids...]}, drains=[stage...]).
     shared=True: every stateless behaviour is ONE callback object registered without a context (a
@@ -231,7 +234,12 @@ def run_real(kinds, inp, shared=False, off=()):
     names = ["pipeline_barrier" if k == "barrier" else (k if shared and k in STATELESS else f"{k}{i}")
              for i, k in enumerate(kinds)]
     prof_data = {"stages": [{n: (i not in off)} for i, n in enumerate(names)]}
-    profile = StageProfile(copy.deepcopy(prof_data), copy.deepcopy(prof_data)) if names else None
+    # a history: ONE StageProfile object drives every pipeline of this process that asks for the same stage list
+    # (the developer README builds processors from a profile object; nothing says the object is single-use)
+    pkey = repr(prof_data)
+    if names and pkey not in _PROFILES:
+        _PROFILES[pkey] = StageProfile(copy.deepcopy(prof_data), copy.deepcopy(prof_data))
+    profile = _PROFILES[pkey] if names else None
     if profile is None:
         class _P:  # an empty profile: StageProfile cannot be built from an empty stage list
             profile = []
@@ -496,6 +504,10 @@ def oracle_on_case(ctx: Ctx, case, verbose=False):
         return {"out": got, "log": [], "emis": {}, "drains": []}
     kinds, inp = eff_kinds(case), case["input"]
     try:
+        if verbose:
+            # a replay starts in a fresh process: run the pipeline once before, so that the judged run is - like in the
+            # check - not the first one built from its StageProfile object
+            run_real(case["kinds"], inp, case.get("shared", False), case.get("off"))
         r = run_real(case["kinds"], inp, case.get("shared", False), case.get("off"))
     except Runaway as ex:
         ctx.violation("engine-delivery", f"pipeline {kinds} on {len(inp)} input events: {ex} (events delivered more than "
